@@ -47,6 +47,8 @@ type asmFunc struct {
 	nInstr int
 }
 
+var reIdent = regexp.MustCompile(`[A-Za-z_][A-Za-z0-9_]*`)
+
 var (
 	reLabel = regexp.MustCompile(`^([A-Za-z_][A-Za-z0-9_]*):$`)
 	reFP    = regexp.MustCompile(`^([A-Za-z_][A-Za-z0-9_]*)\+(-?\d+)\(FP\)$`)
@@ -204,7 +206,102 @@ func parseAsm(path, fn string, consts map[string]int64) (*asmFunc, error) {
 					}
 					continue
 				}
+				// object-like macros used as operands (#define SAVED_SI 24(SP))
+				for pass := 0; pass < 4; pass++ {
+					changed := false
+					st = reIdent.ReplaceAllStringFunc(st, func(w string) string {
+						if body, isM := macros[w]; isM && len(body) == 1 && w != first {
+							changed = true
+							return body[0]
+						}
+						return w
+					})
+					if !changed {
+						break
+					}
+				}
 				lines = append(lines, lline{ln, st})
+			}
+		}
+	}
+	// file-local subroutines (TEXT name<>(SB)) called from the function are spliced in at the call: labels get a
+	// per-call suffix, RET becomes a jump to the instruction after the CALL. They share the caller's registers and
+	// flags; a body that touches the stack is not supported.
+	{
+		bodies := map[string][]lline{}
+		cur := ""
+		for _, ll := range lines {
+			if strings.HasPrefix(ll.text, "TEXT") {
+				cur = ""
+				if m := regexp.MustCompile(`^TEXT\s+([A-Za-z_][A-Za-z0-9_]*)<>\(SB\)`).FindStringSubmatch(ll.text); m != nil {
+					cur = m[1]
+					bodies[cur] = nil
+				}
+				continue
+			}
+			if cur != "" {
+				bodies[cur] = append(bodies[cur], ll)
+			}
+		}
+		if len(bodies) > 0 {
+			reCall := regexp.MustCompile(`^CALL\s+([A-Za-z_][A-Za-z0-9_]*)<>\(SB\)$`)
+			nCall := 0
+			var expand func(ls []lline, depth int) ([]lline, error)
+			expand = func(ls []lline, depth int) ([]lline, error) {
+				var out []lline
+				for _, ll := range ls {
+					m := reCall.FindStringSubmatch(strings.Join(strings.Fields(ll.text), " "))
+					body, isLocal := []lline(nil), false
+					if m != nil {
+						body, isLocal = bodies[m[1]]
+					}
+					if !isLocal {
+						out = append(out, ll)
+						continue
+					}
+					if depth > 3 {
+						return nil, fmt.Errorf("%s:%d: subroutine calls nested too deeply", path, ll.ln+1)
+					}
+					nCall++
+					suf := fmt.Sprintf("_c%d", nCall)
+					labels := map[string]bool{}
+					for _, bl := range body {
+						if lm := reLabel.FindStringSubmatch(bl.text); lm != nil {
+							labels[lm[1]] = true
+						}
+					}
+					var inl []lline
+					for _, bl := range body {
+						t := bl.text
+						if strings.Contains(t, "(SP)") {
+							return nil, fmt.Errorf("%s:%d: subroutine %s uses the stack", path, bl.ln+1, m[1])
+						}
+						if lm := reLabel.FindStringSubmatch(t); lm != nil {
+							inl = append(inl, lline{bl.ln, lm[1] + suf + ":"})
+							continue
+						}
+						f := strings.Fields(t)
+						if f[0] == "RET" {
+							inl = append(inl, lline{bl.ln, "JMP ret" + suf})
+							continue
+						}
+						if isJump(f[0]) && len(f) == 2 && labels[f[1]] {
+							t = f[0] + " " + f[1] + suf
+						}
+						inl = append(inl, lline{bl.ln, t})
+					}
+					inl = append(inl, lline{ll.ln, "ret" + suf + ":"})
+					sub, err := expand(inl, depth+1)
+					if err != nil {
+						return nil, err
+					}
+					out = append(out, sub...)
+				}
+				return out, nil
+			}
+			var err error
+			if lines, err = expand(lines, 0); err != nil {
+				return nil, err
 			}
 		}
 	}
@@ -886,6 +983,14 @@ func (p *asmProg) step(a *AbsState, ins *asmInstr, check bool) ([]*AbsState, err
 			return one, nil
 		}
 		return nil, fmt.Errorf("unsupported XOR form")
+	case "CLC":
+		// carry clear: as after comparing two equal words
+		p.setFlags(a, "cmp", linI(0), linI(0), "")
+		return one, nil
+	case "STC":
+		// carry set: as after comparing 0 with 1
+		p.setFlags(a, "cmp", linI(0), linI(1), "")
+		return one, nil
 	case "CMPQ", "CMPL", "CMPB":
 		x, err := p.read(a, ins, args[0], 8, check)
 		if err != nil {
